@@ -22,8 +22,17 @@ let check inp obs =
   | ["r"; ps; ls; wss; ops] ->
     let t = List.map (fun x -> nat_of_int (int_of_string ("0x" ^ x))) (list_of ps) in
     let ws = List.map n_of_hex (list_of wss) in
+    let labels = Array.of_list (List.map (fun x -> nat_of_int (int_of_string ("0x" ^ x))) (list_of ls)) in
+    let lbl b = let i = int_of_nat b in if i < Array.length labels then labels.(i) else O in
     let ops = list_of ops in
-    let obs_l = list_of obs in
+    let obs_all = list_of obs in
+    (* the last entry of the observation is the dump of the vote graph *)
+    let (obs_l, graph_dump) =
+      (match List.rev obs_all with
+       | g :: r when String.length g >= 2 && String.sub g 0 2 = "G:" ->
+         (List.rev r, Some (String.sub g 2 (String.length g - 2)))
+       | _ -> (obs_all, None)) in
+    let mirror = ref rinit in
     if List.length ops <> List.length obs_l then
       { prop_ok = false; model_eq = false; nontrivial = false; finding = "-"; tags = "shape";
         detail = "observed " ^ obs }
@@ -43,6 +52,11 @@ let check inp obs =
           | _ -> fail "bad op %s" op) in
         let flags = if ph = 'p' then import_flags ws !hv x else import_flags ws !hc x in
         if ph = 'p' then (v := x :: !v; hv := !hv @ [x]) else (c := x :: !c; hc := !hc @ [x]);
+        (* the Tier A mirror of Round / VoteGraph (C20.Graph), replayed on every prefix *)
+        mirror := step_op t lbl ws (if ph = 'p' then O else S O) x !mirror;
+        let ms = observed !mirror in
+        let mirror_st = Printf.sprintf "%s:%s:%s:%s:%s" (blk_str ms.rs_ghost) (blk_str ms.rs_finalized)
+            (blk_str ms.rs_estimate) (if ms.rs_completable then "1" else "0") (blk_str ms.rs_pc_ghost) in
         let rs = round_state_of t ws !v !c in
         let tol_v = tolerant ws !v and tol_c = tolerant ws !c in
         let dom = tol_v && tol_c in
@@ -71,6 +85,7 @@ let check inp obs =
          | [fl; g; f; e; cp; pg; p1; p2] ->
            let ost = String.concat ":" [g; f; e; cp; pg] in
            let opart = p1 ^ ":" ^ p2 in
+           if ost <> mirror_st then fail_eq (Printf.sprintf "go=%s graph-mirror=%s" ost mirror_st);
            if dom then begin
              if ost <> st then fail_prop (Printf.sprintf "go=%s spec=%s" ost st)
            end else begin
@@ -127,6 +142,22 @@ let check inp obs =
             | "0" -> tag "unknown-voter" | "3" -> tag "duplicate" | "5" -> tag "equivocation-reported" | _ -> ())
          | _ -> prop := false; if !detail = "" then detail := "malformed observation " ^ ob))
         (List.combine ops obs_l);
+      (* the vote graph itself: entries, ancestor edges, descendants, cumulative votes *)
+      (match graph_dump with
+       | Some gd ->
+         let hx x = Printf.sprintf "%x" (int_of_nat x) in
+         let join l = if l = [] then "-" else String.concat "." l in
+         let ents = List.sort (fun (a, _) (b, _) -> compare (int_of_nat a) (int_of_nat b)) !mirror.r_G in
+         let md = String.concat ";" (List.map (fun (b, e) ->
+             Printf.sprintf "%s/%s/%s/%s" (hx b) (join (List.map hx e.g_anc))
+               (join (List.map (Printf.sprintf "%x") (List.sort compare (List.map int_of_nat e.g_desc))))
+               (join (List.map (Printf.sprintf "%x") (List.sort_uniq compare (List.map int_of_nat e.g_cum))))) ents) in
+         if md <> gd then begin
+           eq := false; tag "graph-differs";
+           if !detail = "" then detail := Printf.sprintf "vote graph: go=%s mirror=%s" gd md
+         end else tag "graph-equal";
+         if List.exists (fun (_, e) -> List.length e.g_desc >= 2) !mirror.r_G then tag "graph-fork-node"
+       | None -> if ops <> [] then begin eq := false; if !detail = "" then detail := "no graph dump" end);
       let tl = Hashtbl.fold (fun k () acc -> k :: acc) tags [] in
       { prop_ok = !prop; model_eq = !prop && !eq; nontrivial = !nontriv; finding = "-";
         tags = String.concat "," (List.sort compare tl); detail = !detail }
@@ -149,7 +180,7 @@ let coq inp obs =
     let v = List.map mk (List.filter (fun (ph, _, _, _) -> ph = 'p') l)
     and c = List.map mk (List.filter (fun (ph, _, _, _) -> ph = 'c') l) in
     if List.length ws > 12 || List.length l > 40 || not (tolerant ws v && tolerant ws c) then None else begin
-      let last = List.nth (list_of obs) (List.length l - 1) in
+      let last = List.nth (list_of obs) (List.length l - 1) in   (* the graph dump comes after it *)
       match String.split_on_char ':' last with
       | [_; g; f; e; cp; pg; _; _] when cp = "0" || cp = "1" ->
         let ob s = if s = "-" then "None" else Printf.sprintf "(Some %d%%nat)" (int_of_string ("0x" ^ s)) in
